@@ -65,9 +65,11 @@ type prog struct {
 	expect     []string
 	tinyGas    bool
 	wantPre    bool
-	record     bool // record per-step states (divergence locator)
-	nilChainID bool // run KVM under a chain config whose ChainID is nil (always-oracles only, no reference run)
-	create     bool // code is init code: top-level KVM.Create instead of KVM.Call
+	record     bool                       // record per-step states (divergence locator)
+	nilChainID bool                       // run KVM under a chain config whose ChainID is nil (always-oracles only, no reference run)
+	create     bool                       // code is init code: top-level KVM.Create instead of KVM.Call
+	capKey     string                     // key of the per-family cap on processed violating cases (default: family)
+	onKVM      func(iset int, k *outcome) // optional per-family observer of the first KVM outcome (vacuity counters)
 }
 
 func (p *prog) toCase(iset int) Case {
@@ -92,24 +94,26 @@ type slotKey struct {
 }
 
 type traceSum struct {
-	count       *[256]uint64 // executed (dispatched) opcodes, worker-local accumulation
-	steps       uint64
-	maxDepth    int
-	oog         bool // some frame failed with an out-of-gas class error (incl. gas overflow, code-store OOG)
-	excluded    bool // an opcode with cmpNoCrash was fetched (0x44, 0x45, GAS)
-	precompile  bool // a CALL-family op addressed 0x01..0x09
-	bigCode     bool // a CREATE frame returned more than 24576 bytes (MaxCodeSize differs: 39231 vs 24576)
-	pastPrelude bool // an instruction at pc >= preludeEnd of the top frame was dispatched
-	preludeEnd  uint64
-	stepBound   uint64
-	overBound   bool
-	slots       []slotKey
-	addrs       []addr20
-	lastAddr    addr20
-	ops         [4]uint64  // bitmap of opcodes dispatched in this run
-	saw46       bool       // opcode 0x46 was fetched (its reference configuration depends on the instruction set)
-	lastOp      byte       // last opcode handed to the tracer (for panics: the instruction being executed)
-	rec         *[]stepRec // when non-nil: per-step record for the divergence locator (only on re-runs of violating cases)
+	count           *[256]uint64 // executed (dispatched) opcodes, worker-local accumulation
+	steps           uint64
+	maxDepth        int
+	oog             bool // some frame failed with an out-of-gas class error (incl. gas overflow, code-store OOG)
+	excluded        bool // an opcode with cmpNoCrash was fetched (0x44, 0x45, GAS)
+	precompile      bool // a CALL-family op addressed 0x01..0x09
+	bigCode         bool // a CREATE frame returned more than 24576 bytes (MaxCodeSize differs: 39231 vs 24576)
+	pastPrelude     bool // an instruction at pc >= preludeEnd of the top frame was dispatched
+	preludeEnd      uint64
+	stepBound       uint64
+	overBound       bool
+	slots           []slotKey
+	addrs           []addr20
+	lastAddr        addr20
+	ops             [4]uint64  // bitmap of opcodes dispatched in this run
+	saw46           bool       // opcode 0x46 was fetched (its reference configuration depends on the instruction set)
+	sawCodeStoreOOG bool       // KVM side only: a nested CREATE frame ended with ErrCodeStoreOutOfGas
+	sawMaxCode      bool       // KVM side only: ... with ErrMaxCodeSizeExceeded
+	lastOp          byte       // last opcode handed to the tracer (for panics: the instruction being executed)
+	rec             *[]stepRec // when non-nil: per-step record for the divergence locator (only on re-runs of violating cases)
 }
 
 // stepRec is the machine state right before one instruction is executed (gas excluded).
@@ -131,6 +135,9 @@ func fnv(h uint64, b []byte) uint64 {
 const fnvInit = 14695981039346656037
 
 const refMaxCodeSize = 24576
+
+var kvmMaxCodeSize = uint64(configs.MaxCodeSize)
+
 const createDataGas = 200
 
 func (t *traceSum) noteAddr(a addr20) {
@@ -390,6 +397,12 @@ func (k *ktracer) CaptureExit(output []byte, gasUsed uint64, err error) {
 	if err != nil && kIsOOG(err) {
 		k.t.oog = true
 	}
+	switch err {
+	case kvm.ErrCodeStoreOutOfGas:
+		k.t.sawCodeStoreOOG = true
+	case kvm.ErrMaxCodeSizeExceeded:
+		k.t.sawMaxCode = true
+	}
 }
 func (k *ktracer) CaptureEnd(output []byte, gasUsed uint64, d time.Duration, err error) {
 	if err != nil && kIsOOG(err) {
@@ -468,9 +481,14 @@ func (k *ktracer) CaptureState(pc uint64, op kvm.OpCode, gas, cost uint64, scope
 	case 0xf3: // RETURN
 		if len(scope.Contract.Code) > 0 && k.s.GetCodeSize(scope.Contract.Address()) == 0 { // a CREATE frame returns its runtime code
 			sz := scope.Stack.Back(1)
-			if !sz.IsUint64() || sz.Uint64() > refMaxCodeSize {
+			switch n := sz.Uint64(); {
+			case !sz.IsUint64():
 				t.bigCode = true
-			} else if gas-cost < sz.Uint64()*createDataGas {
+			case n > kvmMaxCodeSize:
+				// larger than BOTH limits: both sides reject the deposit whatever the gas - comparable
+			case n > refMaxCodeSize:
+				t.bigCode = true // between the two limits: legitimately different
+			case gas-cost < n*createDataGas:
 				t.oog = true
 			}
 		}
@@ -802,9 +820,14 @@ func (g *gtracer) CaptureState(env *gvm.EVM, pc uint64, op gvm.OpCode, gas, cost
 	case 0xf3:
 		if len(contract.Code) > 0 && g.s.GetCodeSize(contract.Address()) == 0 { // a CREATE frame returns its runtime code
 			sz := stack.Back(1)
-			if !sz.IsUint64() || sz.Uint64() > refMaxCodeSize {
+			switch n := sz.Uint64(); {
+			case !sz.IsUint64():
 				t.bigCode = true
-			} else if gas-cost < sz.Uint64()*createDataGas {
+			case n > kvmMaxCodeSize:
+				// larger than BOTH limits: both sides reject the deposit whatever the gas - comparable
+			case n > refMaxCodeSize:
+				t.bigCode = true // between the two limits: legitimately different
+			case gas-cost < n*createDataGas:
 				t.oog = true
 			}
 		}
